@@ -62,6 +62,9 @@ def gen(ch):
     # sequential continuation from the contents left at quiescence: (kind, key); key nkeys is a fresh one
     sc.post = [(ch.weighted([8, 2, 1, 1]), ch.draw(sc.nkeys + 1)) for _ in range(ch.between(2, 8))]
     sc.backend = pick_backend(ch, 1, 5)
+    # argument patterns: one small int (the cache's fast path), or pairs whose key tuples collide in hash
+    # (hash(-1) == hash(-2), hash(0.5) == hash(2**60)) and therefore have to be told apart by equality
+    sc.args = ([(0,), (1,), (2,), (3,)], [(-1, 0), (-2, 0), (0.5, 0), (2 ** 60, 0)])[ch.weighted([3, 1])]
     return sc
 
 
@@ -81,7 +84,8 @@ def execute(st, ctx):
         marks["tick"] += 1
         return marks["tick"]
 
-    async def wrapped(key):
+    async def wrapped(*args):
+        key = sc.args.index(args)
         serial = len(invs)
         rec = [serial, key, sim.seq, None, "running", tick()]
         invs.append(rec)
@@ -99,6 +103,7 @@ def execute(st, ctx):
             rec[3] = sim.seq
             rec[4] = "ok"
             return ("v", key, serial)
+
         except CANCEL:
             rec[4] = "cancelled"
             raise
@@ -116,7 +121,7 @@ def execute(st, ctx):
                 rec = [ti, key, sim.seq, None, "running", None, tick()]
                 calls.append(rec)
                 try:
-                    rec[5] = await cached(key)
+                    rec[5] = await cached(*sc.args[key])
                     rec[4] = "ok"
                 except InjectedFault:
                     rec[4] = "failed"
@@ -133,7 +138,7 @@ def execute(st, ctx):
             elif kind == 2:
                 if any(in_flight.values()):
                     out.probes["discard_in_flight"] = 1
-                cached.cache_discard(key)
+                cached.cache_discard(*sc.args[key])
             else:
                 cached.cache_info()
             for _ in range(pause):
@@ -157,7 +162,7 @@ def execute(st, ctx):
     sig = ("maxsize=%r" % (sc.maxsize,),)
 
     def describe():
-        return {"backend": sc.backend, "maxsize": sc.maxsize, "keys": sc.nkeys, "suspensions": sc.susp, "fail_invocation": sc.fail_serial,
+        return {"backend": sc.backend, "maxsize": sc.maxsize, "keys": sc.nkeys, "argument_patterns": repr(sc.args[:sc.nkeys + 1]), "suspensions": sc.susp, "fail_invocation": sc.fail_serial,
                 "programs": [[(("call", "clear", "discard", "info")[k], key, p) for k, key, p in ops] for ops in sc.progs],
                 "cancel": {"task": sc.cancel, "fired_at": sim.cancel_fired_at} if sc.cancel is not None else None,
                 "invocations": [list(r) for r in invs], "calls": [list(c) for c in calls],
@@ -208,10 +213,10 @@ def execute(st, ctx):
             for kind, key in sc.post:
                 before = len(invs)
                 if kind == 0:
-                    v = await cached(key)
+                    v = await cached(*sc.args[key])
                     post.append(("call", key, v, len(invs) - before, tuple(cached.cache_info())))
                 elif kind == 1:
-                    cached.cache_discard(key)
+                    cached.cache_discard(*sc.args[key])
                     post.append(("discard", key, None, 0, tuple(cached.cache_info())))
                 elif kind == 2:
                     cached.cache_clear()
@@ -285,7 +290,7 @@ def execute(st, ctx):
         out.faults["discard_in_flight"] = 1
     overlapped = any(a[2] < b[2] <= (a[3] if a[3] is not None else 10**9) for a in invs for b in invs if a is not b)
     out.nontrivial = overlapped
-    out.shape = (sc.backend, sc.maxsize, sc.nkeys, tuple(tuple(o) for ops in sc.progs for o in ops), sc.fail_serial,
+    out.shape = (sc.backend, len(sc.args[0]), sc.maxsize, sc.nkeys, tuple(tuple(o) for ops in sc.progs for o in ops), sc.fail_serial,
                  sc.cancel, hash(tuple(sim.trace)))
     if ctx.want_sample:
         out.sample = describe()
